@@ -1,36 +1,338 @@
 //! Scenario generators: a scenario seed expands, by a pure function, into a scenario value.
-use crate::net::NetCfg;
+//! Every run draws its own configuration (swarm testing): committee, stakes, parameters,
+//! network shape, enabled fault kinds and their rates, workload.
+use crate::net::{bit, NetCfg, Rule, RuleKind, FOREVER, SVC_CONSENSUS, SVC_MEMPOOL, SVC_TX};
 use crate::rng::Rng;
 use crate::scenario::*;
 
+pub const ALL_SVC: u8 = (1 << SVC_CONSENSUS) | (1 << SVC_MEMPOOL) | (1 << SVC_TX);
+pub const NODE_SVC: u8 = (1 << SVC_CONSENSUS) | (1 << SVC_MEMPOOL);
+
+pub struct Builder {
+    pub r: Rng,
+    pub sc: Scenario,
+    pub uid: u64,
+    /// Round timeout of node 0 in microseconds (the time scale of the scenario).
+    pub t_us: u64,
+}
+
+impl Builder {
+    pub fn new(profile: &str, seed: u64) -> Self {
+        let r = Rng::new(seed);
+        let sc = Scenario {
+            world: "cluster".into(),
+            profile: profile.into(),
+            seed,
+            n: 4,
+            stakes: vec![1; 4],
+            byz: vec![],
+            params: vec![NodeParams::default(); 4],
+            duration_us: 5_000_000,
+            net: NetCfg::default(),
+            events: Vec::new(),
+            adv: AdvCfg::default(),
+            bounds: Bounds::default(),
+            mute: None,
+            tokio_event_interval: 61,
+            tokio_global_queue_interval: 31,
+            script: serde_json::Value::Null,
+        };
+        Builder { r, sc, uid: 1, t_us: 1_000_000 }
+    }
+
+    pub fn all_nodes(&self) -> u64 {
+        (0..self.sc.n).map(bit).sum()
+    }
+
+    /// Committee size and stakes. `style`: 0 equal, 1 mildly skewed, 2 one heavy (below a third).
+    pub fn committee(&mut self, sizes: &[usize], allow_skew: bool) {
+        let n = *self.r.pick(sizes);
+        self.sc.n = n;
+        let style = if allow_skew { self.r.below(4) } else { 0 };
+        self.sc.stakes = match style {
+            1 => (0..n).map(|_| self.r.range(1, 3) as u32).collect(),
+            2 => {
+                // One heavier member, still at most a third of the total minus one.
+                let mut s = vec![2u32; n];
+                let h = self.r.below(n);
+                s[h] = 3;
+                s
+            }
+            _ => vec![1; n],
+        };
+    }
+
+    /// Largest total stake of a set of authorities that can be faulty: f with total >= 3f + 1.
+    pub fn max_faulty_stake(&self) -> u64 {
+        let total: u64 = self.sc.stakes.iter().map(|x| *x as u64).sum();
+        (total - 1) / 3
+    }
+
+    /// A random set of authorities with total stake at most `budget`.
+    pub fn faulty_set(&mut self, budget: u64, max_members: usize) -> Vec<usize> {
+        let mut order: Vec<usize> = (0..self.sc.n).collect();
+        self.r.shuffle(&mut order);
+        let mut left = budget;
+        let mut out = Vec::new();
+        for i in order {
+            let s = self.sc.stakes[i] as u64;
+            if s <= left && out.len() < max_members {
+                out.push(i);
+                left -= s;
+            }
+        }
+        out
+    }
+
+    pub fn params(&mut self, timeout_ms: (u64, u64), skew: bool) {
+        let t = self.r.log_range(timeout_ms.0, timeout_ms.1);
+        self.t_us = t * 1_000;
+        let base = NodeParams {
+            timeout_delay: t,
+            sync_retry_delay: self.r.range(1_000, 5_000),
+            gc_depth: self.r.range(5, 50),
+            batch_size: self.r.log_range(100, 4_000) as usize,
+            max_batch_delay: self.r.log_range(10, 200),
+            sync_retry_nodes: self.r.range(1, (self.sc.n - 1) as u64) as usize,
+        };
+        self.sc.params = (0..self.sc.n)
+            .map(|_| {
+                let mut p = base.clone();
+                if skew {
+                    // timer-skew fault: every node has its own idea of the round timeout.
+                    p.timeout_delay = (t as f64 * (0.7 + 0.8 * (self.r.next() % 1000) as f64 / 1000.0)) as u64;
+                    p.max_batch_delay = self.r.log_range(10, 200);
+                }
+                p
+            })
+            .collect();
+        if skew {
+            self.sc.net.rules.len(); // no-op; skew is accounted by the batch as a fault kind
+        }
+    }
+
+    /// Network latency shape relative to the round timeout.
+    pub fn latency(&mut self, max_frac_of_timeout: f64) {
+        let cap = (self.t_us as f64 * max_frac_of_timeout) as u64;
+        let lo = self.r.log_range(500, 5_000).min(cap.max(500));
+        let hi = lo + self.r.log_range(100, cap.max(200));
+        self.sc.net.base_lat_us = (lo, hi.min(cap.max(lo + 100)));
+        self.sc.net.jitter_us = self.r.log_range(100, (cap / 4).max(200));
+        self.sc.net.connect_lat_us = (200, self.r.log_range(300, cap.max(400)));
+    }
+
+    pub fn boots(&mut self, stagger_us: u64) {
+        for i in 0..self.sc.n {
+            if self.sc.byz.contains(&i) {
+                continue;
+            }
+            let t = if stagger_us == 0 { 0 } else { self.r.range(0, stagger_us) };
+            self.sc.events.push(TimedEvent { t_us: t, kind: EventKind::Boot { node: i } });
+        }
+    }
+
+    /// Client load: `count` transactions between t0 and t1 to random honest nodes.
+    pub fn load(&mut self, count: usize, t0: u64, t1: u64, len: (u64, u64), clients: usize) {
+        let honest: Vec<usize> = (0..self.sc.n).filter(|i| self.sc.honest(*i)).collect();
+        for _ in 0..count {
+            let t = self.r.range(t0, t1);
+            let node = *self.r.pick(&honest);
+            let l = self.r.log_range(len.0.max(1), len.1) as usize;
+            let client = self.r.below(clients.max(1));
+            self.sc.events.push(TimedEvent { t_us: t, kind: EventKind::Tx { client, node, len: l.max(9), first: 1, uid: self.uid } });
+            self.uid += 1;
+        }
+    }
+
+    pub fn spikes(&mut self, prob: f64, max_us: u64, until: u64) {
+        self.sc.net.spike_prob = prob;
+        self.sc.net.spike_us = max_us;
+        self.sc.net.spike_until_us = until;
+    }
+
+    pub fn buggify_io(&mut self) {
+        if self.r.chance(0.5) {
+            self.sc.net.short_write_prob = *self.r.pick(&[0.01, 0.05, 0.2]);
+        }
+        if self.r.chance(0.5) {
+            self.sc.net.pending_write_prob = *self.r.pick(&[0.01, 0.05, 0.2]);
+        }
+        if self.r.chance(0.5) {
+            self.sc.net.split_read_prob = *self.r.pick(&[0.01, 0.05, 0.3]);
+        }
+    }
+
+    pub fn mute(&mut self, density: f64, len_factor: (f64, f64), partial: f64, max_round: u64) {
+        let mut rounds = Vec::new();
+        let pattern = self.r.below(4);
+        for r in 1..=max_round {
+            let on = match pattern {
+                0 => self.r.chance(density),
+                1 => r % 3 == 1,                      // 1,4,7,..: certified blocks with gaps
+                2 => r % 3 == 1 && r > 3,             // the same but after a normal start
+                _ => self.r.chance(density) || (r > 2 && r % 5 == 0),
+            };
+            if on {
+                rounds.push(r);
+            }
+        }
+        let f = len_factor.0 + (len_factor.1 - len_factor.0) * (self.r.next() % 1000) as f64 / 1000.0;
+        self.sc.mute = Some(MuteCfg { rounds, len_us: (self.t_us as f64 * f) as u64, partial_prob: partial });
+    }
+
+    pub fn partition(&mut self, t0: u64, t1: u64, side: u64, svc_mask: u8, label: &str) {
+        let other = self.all_nodes() & !side;
+        self.sc.net.rules.push(Rule { t0_us: t0, t1_us: t1, src: side, dst: other, bidir: true, svc_mask, kind: RuleKind::Block, reply_only: false, label: label.into() });
+    }
+
+    pub fn random_partitions(&mut self, k: usize) {
+        for _ in 0..k {
+            let t0 = self.r.range(self.t_us, self.sc.duration_us.saturating_sub(self.t_us).max(self.t_us + 1));
+            let len = (self.t_us as f64 * (0.3 + 4.0 * (self.r.next() % 1000) as f64 / 1000.0)) as u64;
+            let mut side = 0u64;
+            for i in 0..self.sc.n {
+                if self.r.chance(0.4) {
+                    side |= bit(i);
+                }
+            }
+            if side == 0 || side == self.all_nodes() {
+                side = bit(self.r.below(self.sc.n));
+            }
+            self.partition(t0, t0 + len, side, NODE_SVC, "partition");
+        }
+    }
+
+    pub fn crash(&mut self, node: usize, t0: u64) {
+        let all = self.all_nodes() | (0xffff_ffffu64 << 32);
+        self.sc.net.rules.push(Rule {
+            t0_us: t0,
+            t1_us: FOREVER,
+            src: bit(node),
+            dst: all & !bit(node),
+            bidir: true,
+            svc_mask: ALL_SVC,
+            kind: RuleKind::Block,
+            reply_only: false,
+            label: "crash".into(),
+        });
+    }
+
+    pub fn stall_node(&mut self, node: usize, t0: u64, t1: u64, outgoing: bool, incoming: bool) {
+        let others = self.all_nodes() & !bit(node);
+        if outgoing {
+            self.sc.net.rules.push(Rule { t0_us: t0, t1_us: t1, src: bit(node), dst: others, bidir: false, svc_mask: NODE_SVC, kind: RuleKind::Stall, reply_only: false, label: "stall".into() });
+        }
+        if incoming {
+            self.sc.net.rules.push(Rule { t0_us: t0, t1_us: t1, src: others, dst: bit(node), bidir: false, svc_mask: NODE_SVC, kind: RuleKind::Stall, reply_only: false, label: "stall".into() });
+        }
+    }
+
+    pub fn random_resets(&mut self, k: usize, svc_mask: u8) {
+        for _ in 0..k {
+            let t = self.r.range(self.t_us / 2, self.sc.duration_us);
+            let a = bit(self.r.below(self.sc.n));
+            let pick = self.r.next();
+            self.sc.events.push(TimedEvent { t_us: t, kind: EventKind::ResetConn { src: a, dst: self.all_nodes(), svc_mask, pick } });
+        }
+    }
+
+    pub fn clock_jumps(&mut self, k: usize) {
+        for _ in 0..k {
+            let t = self.r.range(0, self.sc.duration_us);
+            let d = if self.r.chance(0.7) { self.r.range(1_000, 120_000) as i64 } else { -(self.r.range(100, 20_000) as i64) };
+            self.sc.net.clock_jumps.push((t, d));
+        }
+    }
+
+    pub fn tokio_knobs(&mut self) {
+        self.sc.tokio_event_interval = *self.r.pick(&[1u32, 7, 31, 61, 127]);
+        self.sc.tokio_global_queue_interval = *self.r.pick(&[1u32, 3, 31, 61]);
+    }
+
+    pub fn finish(mut self) -> Scenario {
+        self.sc.events.sort_by_key(|e| e.t_us);
+        self.sc
+    }
+}
+
+/// The general safety scenario: view changes, partitions, crashes, resets, slow nodes.
+/// `bias` tunes it towards the shapes a property cares about.
+pub fn chaos(profile: &str, seed: u64, thorough: bool) -> Scenario {
+    let mut b = Builder::new(profile, seed);
+    let sizes: &[usize] = if thorough { &[4, 4, 5, 6, 7, 7, 10] } else { &[4, 4, 5, 7] };
+    b.committee(sizes, true);
+    let skew = b.r.chance(0.3);
+    b.params((300, 1_200), skew);
+    b.latency(0.08);
+    let rounds_t = b.r.range(15, if thorough { 60 } else { 35 });
+    b.sc.duration_us = b.t_us * rounds_t;
+    let stagger = if b.r.chance(0.3) { b.t_us / 2 } else { 0 };
+    b.boots(stagger);
+    let dur = b.sc.duration_us;
+    let txs = b.r.range(10, 80) as usize;
+    b.load(txs, b.t_us / 4, dur - b.t_us, (16, 600), 3);
+    // Swarm: each fault kind is on or off for the run.
+    let force_mute = matches!(profile, "C02" | "C05" | "C10");
+    if force_mute || b.r.chance(0.6) {
+        let density = *b.r.pick(&[0.1, 0.2, 0.35]);
+        let partial = *b.r.pick(&[0.0, 0.3, 0.6]);
+        b.mute(density, (1.1, 2.5), partial, 400);
+    }
+    if b.r.chance(0.4) {
+        let k = b.r.range(1, 3) as usize;
+        b.random_partitions(k);
+    }
+    if b.r.chance(0.3) {
+        // Crashes of any number of nodes are allowed for safety properties; mostly <= f.
+        let budget = if b.r.chance(0.8) { b.max_faulty_stake() } else { b.max_faulty_stake() + 1 };
+        let set = b.faulty_set(budget, 3);
+        for i in set {
+            let t = b.r.range(0, dur);
+            b.crash(i, t);
+        }
+    }
+    if b.r.chance(0.4) {
+        let k = b.r.range(2, 15) as usize;
+        b.random_resets(k, NODE_SVC);
+    }
+    if b.r.chance(0.3) {
+        let k = b.r.range(1, 3);
+        for _ in 0..k {
+            let node = b.r.below(b.sc.n);
+            let t0 = b.r.range(0, dur);
+            let len = (b.t_us as f64 * (0.5 + 3.0 * (b.r.next() % 1000) as f64 / 1000.0)) as u64;
+            let (o, i) = *b.r.pick(&[(true, true), (true, false), (false, true)]);
+            b.stall_node(node, t0, t0 + len, o, i);
+        }
+    }
+    if b.r.chance(0.3) {
+        let p = *b.r.pick(&[0.005, 0.02, 0.05]);
+        let m = b.t_us * 2;
+        b.spikes(p, m, FOREVER);
+    }
+    if b.r.chance(0.3) {
+        b.clock_jumps(2);
+    }
+    if b.r.chance(0.4) {
+        b.buggify_io();
+    }
+    b.tokio_knobs();
+    b.finish()
+}
+
 pub fn base(seed: u64) -> Scenario {
-    let mut r = Rng::new(seed);
-    let n = 4;
-    let mut events = Vec::new();
-    for i in 0..n {
-        events.push(TimedEvent { t_us: 0, kind: EventKind::Boot { node: i } });
-    }
-    let mut uid = 1;
-    for k in 0..200u64 {
-        let t = 50_000 + k * 20_000 + r.range(0, 10_000);
-        events.push(TimedEvent { t_us: t, kind: EventKind::Tx { client: (k % 2) as usize, node: r.below(n), len: 64, first: 1, uid } });
-        uid += 1;
-    }
-    Scenario {
-        world: "cluster".into(),
-        profile: "base".into(),
-        seed,
-        n,
-        stakes: vec![1; n],
-        byz: vec![],
-        params: vec![NodeParams::default(); n],
-        duration_us: 5_000_000,
-        net: NetCfg::default(),
-        events,
-        adv: AdvCfg::default(),
-        bounds: Bounds::default(),
-        tokio_event_interval: 61,
-        tokio_global_queue_interval: 31,
-        script: serde_json::Value::Null,
+    let mut b = Builder::new("base", seed);
+    b.params((1_000, 1_000), false);
+    b.sc.net.base_lat_us = (2_000, 8_000);
+    b.sc.duration_us = 5_000_000;
+    b.boots(0);
+    b.load(100, 50_000, 4_000_000, (64, 64), 2);
+    b.finish()
+}
+
+pub fn for_prop(prop: &str, seed: u64, thorough: bool) -> Scenario {
+    match prop {
+        "base" => base(seed),
+        _ => chaos(prop, seed, thorough),
     }
 }
